@@ -208,6 +208,11 @@ def parse_directive(block):
         if mm:
             cur = (mm.group(1), _unq(mm.group(2)))
             continue
+        mm = re.match(r"contract_file:\s*(\S+)$", s)
+        if mm:
+            d["contract"] = open(os.path.join(VERIF, mm.group(1))).read()
+            d["contract_file"] = mm.group(1)
+            continue
         if s in ("contract:", "top:", "sig:"):
             cur = (s[:-1],)
             continue
